@@ -1,5 +1,7 @@
 import Generated.PyTextFormatting
-import Props.C01pyc
+import Proofs.PyStr
+import Proofs.Emit
+import Model.Emit
 import Model.Encode
 /-!
 # C01 — translator tie for the text-formatting emitter
